@@ -9,35 +9,6 @@ import (
 	stdtime "time"
 )
 
-type (
-	Time     = stdtime.Time
-	Duration = stdtime.Duration
-	Location = stdtime.Location
-	Month    = stdtime.Month
-	Weekday  = stdtime.Weekday
-	Timer    = stdtime.Timer
-	Ticker   = stdtime.Ticker
-)
-
-const (
-	Nanosecond  = stdtime.Nanosecond
-	Microsecond = stdtime.Microsecond
-	Millisecond = stdtime.Millisecond
-	Second      = stdtime.Second
-	Minute      = stdtime.Minute
-	Hour        = stdtime.Hour
-	RFC3339     = stdtime.RFC3339
-	RFC1123     = stdtime.RFC1123
-	UnixDate    = stdtime.UnixDate
-	January     = stdtime.January
-	December    = stdtime.December
-)
-
-var (
-	UTC   = stdtime.UTC
-	Local = stdtime.Local
-)
-
 type clock struct {
 	t    Time
 	step Duration // every Now() advances the clock by step (0 = frozen)
@@ -72,18 +43,5 @@ func Now() Time {
 	return stdtime.Now()
 }
 
-func Since(t Time) Duration                    { return Now().Sub(t) }
-func Until(t Time) Duration                    { return t.Sub(Now()) }
-func Unix(sec int64, nsec int64) Time          { return stdtime.Unix(sec, nsec) }
-func UnixMilli(msec int64) Time                { return stdtime.UnixMilli(msec) }
-func Parse(layout, value string) (Time, error) { return stdtime.Parse(layout, value) }
-func ParseDuration(s string) (Duration, error) { return stdtime.ParseDuration(s) }
-func Date(year int, month Month, day, hour, min, sec, nsec int, loc *Location) Time {
-	return stdtime.Date(year, month, day, hour, min, sec, nsec, loc)
-}
-func FixedZone(name string, offset int) *Location { return stdtime.FixedZone(name, offset) }
-func LoadLocation(name string) (*Location, error) { return stdtime.LoadLocation(name) }
-func Sleep(d Duration)                            { stdtime.Sleep(d) }
-func After(d Duration) <-chan Time                { return stdtime.After(d) }
-func NewTimer(d Duration) *Timer                  { return stdtime.NewTimer(d) }
-func NewTicker(d Duration) *Ticker                { return stdtime.NewTicker(d) }
+func Since(t Time) Duration { return Now().Sub(t) }
+func Until(t Time) Duration { return t.Sub(Now()) }
